@@ -5,7 +5,8 @@
    - the lines split into consecutive runs, one per mapping, the mapping's extent being the hull
      of its run (so every line is inside exactly one mapping);
    - two consecutive lines share a run only if contiguous and for one of the three stated reasons;
-   - the mapping that starts at the gate address (first line not a path) is named linux-gate.so. *)
+   - the mapping that starts at the gate address (first line not a path) is named linux-gate.so, and no other
+     mapping is (unless the memory map itself names its first line so). *)
 From Coq Require Import List NArith Arith Bool.
 From MDW Require Import Maps.
 Import ListNotations.
@@ -54,6 +55,11 @@ Definition run_ok (gate : option N) (m : minfo) (run : list line) : bool :=
       && (match gate with
           | Some g => if (m_start m =? g) && negb (is_path (l_name f)) then name_eqb (m_name m) gate_name else true
           | None => true end)
+      (* ... and it is THE mapping so named: no other mapping takes the gate name (unless its own line carries it) *)
+      && (if name_eqb (m_name m) gate_name
+          then (match gate with Some g => (m_start m =? g) && negb (is_path (l_name f)) | None => false end)
+               || name_eqb (l_name f) gate_name
+          else true)
   end.
 
 Fixpoint runs_ok (gate : option N) (ms : list minfo) (ls : list line) : bool :=
